@@ -13,15 +13,15 @@ Proof. exact run_refines. Qed.
 Theorem C12_slice_initial_state_related : forall b, R (init b) (ainit b).
 Proof. exact init_R. Qed.
 (* an operation that does not fit fails and changes neither contents nor position *)
-Theorem C12_failed_op_is_noop : forall t o, snd (step t o) <> Done -> fst (step t o) = t.
+Theorem C12_failed_op_is_noop : forall t o, snd (bstep t o) <> Done -> fst (bstep t o) = t.
 Proof. exact failed_is_noop. Qed.
 Theorem C12_never_past_end : forall ops b,
   let t := fst (run (init b) ops) in length (buf t) = length b /\ pos t <= length b.
 Proof. exact never_past_end. Qed.
 (* a write into a reservation touches only [s, s+|bs|) inside it and shrinks it from the front *)
 Theorem C12_reservation_confined : forall t a r bs s e, R t a -> nth_error (res t) r = Some (s, e) ->
-  snd (step t (WRes r bs)) = Done ->
-  let t' := fst (step t (WRes r bs)) in
+  snd (bstep t (WRes r bs)) = Done ->
+  let t' := fst (bstep t (WRes r bs)) in
   s + length bs <= e /\ e <= pos t /\
   firstn s (buf t') = firstn s (buf t) /\ skipn (s + length bs) (buf t') = skipn (s + length bs) (buf t) /\
   firstn (length bs) (skipn s (buf t')) = bs /\ pos t' = pos t /\
